@@ -60,3 +60,11 @@ package mem
 //@ flag noalloc
 //@ requires s != nil && cacheWf(s)
 //@ ensures [found] result2 == nil ==> wanOk(path) && known(s, wanW(path), wanA(path)) && result1 != nil && result1 == accountByName(s, wanW(path), wanA(path)) && result0 != nil && result0 == s.wallets[wanW(path)] && result0 == walletOf(result1)
+
+// lookup by public key: the key's path in the start-up map, else in the overlay, then the lookup by name
+//@ spec pathOfKey(s *Service, k [48]byte) string = if k in s.pubKeyPaths then s.pubKeyPaths[k] else s.rwPubKeyPaths[k]
+//@ spec memFetchedByKey(f any, key Bytes) any = memFetchedByName(f, pathOfKey(unbox(f, "*Service"), bkey48(key)))
+//@ func (*Service).FetchAccountByKey
+//@ flag noalloc
+//@ requires s != nil && cacheWf(s)
+//@ ensures [found] result2 == nil ==> result1 != nil && result1 == accountByName(s, wanW(pathOfKey(s, key48(pubKey))), wanA(pathOfKey(s, key48(pubKey)))) && result0 != nil && result0 == walletOf(result1)
